@@ -131,6 +131,67 @@ func (c *Ctx) c12OTP() {
 		return
 	}
 	list := stripConv(sl.X)
+	// the index counts positions of the list that is stored back: a match found
+	// while walking another list (a filtered or decoded copy) names another element
+	{
+		var walk func(v ssa.Value, d int)
+		seenPhi := map[*ssa.Phi]bool{}
+		walk = func(v ssa.Value, d int) {
+			if d > 4 {
+				return
+			}
+			if k, isC := ConstInt(v); isC && k < 0 {
+				return
+			}
+			idx := v
+			if b, ok := v.(*ssa.BinOp); ok && b.Op == token.ADD {
+				idx = b.X
+			}
+			phi, ok := idx.(*ssa.Phi)
+			if !ok {
+				return
+			}
+			// a range index: phi [-1, phi+1] whose header compares phi+1 with len(L)
+			isRange := false
+			for _, e := range phi.Edges {
+				if k, isC := ConstInt(e); isC && k == -1 {
+					for _, e2 := range phi.Edges {
+						if b, ok := e2.(*ssa.BinOp); ok && b.Op == token.ADD && b.X == ssa.Value(phi) {
+							isRange = true
+						}
+					}
+				}
+			}
+			if !isRange {
+				if seenPhi[phi] {
+					return
+				}
+				seenPhi[phi] = true
+				for _, e := range phi.Edges {
+					walk(e, d+1)
+				}
+				return
+			}
+			for _, in := range phi.Block().Instrs {
+				cmp, ok := in.(*ssa.BinOp)
+				if !ok || cmp.Op != token.LSS {
+					continue
+				}
+				lc, _ := CallOf(cmp.Y)
+				if lc == nil {
+					continue
+				}
+				if bi, isB := lc.Common().Value.(*ssa.Builtin); isB && bi.Name() == "len" {
+					if L := stripConv(Arg(lc, 0)); L != list {
+						r.Bad("C12.otp-remove", name, "match index ranges over the stored list", posf(c, in), "the index of the matching one-time password is a position in another list ("+SafeString(L)+") than the one the element is removed from and that is stored back: when the two differ in length or order another password is removed and the used one stays valid")
+					} else {
+						r.Ok("C12.otp-remove", name, "match index ranges over the stored list", posf(c, in), "index and removal refer to the same list")
+					}
+				}
+			}
+		}
+		walk(match, 0)
+	}
 	hi, okHi := linearOf(sl.High, 0)
 	lowOK := sl.Low == nil
 	cutOne := okHi && lowOK && hi.K == -1 && len(hi.Lens) == 1
@@ -466,7 +527,7 @@ func (c *Ctx) c12TOTPReplay() {
 				if !isRecord(in) {
 					continue
 				}
-				okRej = HasFact(FactsAtInstr(in), func(f Fact) bool {
+				okRej = HoldsAtJoin(in, func(f Fact) bool {
 					rel := f.Rel()
 					if rel.Op != token.NEQ {
 						return false
